@@ -33,7 +33,7 @@ theorem readBlock_spec (f : File) (li : LinkInfo) (hw : WFL f li) (q : Piece) (p
   have h1 : ¬ (q.rel > q.cur) := by omega
   have h2 : ¬ (q.n = 0 ∨ q.n + q.rel > q.cur) := by omega
   simp only [h1, h2, if_false] at hr
-  rw [diskRead_eq _ _ _ _ hr]
+  rw [hpRead_eq _ _ _ _ hr]
   apply List.map_congr_left
   intro j hj
   have hj : j < q.n := List.mem_range.mp hj
@@ -275,7 +275,7 @@ theorem readPieces_ok (f : File) (li : LinkInfo) (hw : WFL f li) (hm : Materiali
         have h1 : ¬ (q.rel > q.cur) := by omega
         have h2 : ¬ (q.n = 0 ∨ q.n + q.rel > q.cur) := by omega
         simp only [h1, h2, if_false]
-        exact diskRead_some _ _ _ (by omega)
+        exact hpRead_some _ _ _ (by omega)
       rw [this]
       exact ih _ _ _ _ hrest he
 
